@@ -140,6 +140,54 @@ proof fn lemma_item_rhs_len(ctx: &ImmutContext, it: StateItem)
     }
 }
 
+impl<'a> UnnormalizedMachineBuilder<'a> {
+    spec fn gr(&self) -> Gram<'a> { self.context.gr() }
+    /// the item sets of the states, by state index
+    spec fn its(&self) -> Seq<Set<StateItem>> { self.states@.map_values(|st: State| st.items@) }
+    /// basic well-formedness: ordered sets sorted, items refer to existing rules, queued indices exist
+    spec fn bwf(&self) -> bool {
+        &&& self.context.wf() && self.states@.len() >= 1
+        &&& forall|s: int| 0 <= s < self.states@.len() ==> (#[trigger] self.states@[s]).items.wf()
+        &&& forall|s: int, x: StateItem| 0 <= s < self.states@.len() && #[trigger] self.states@[s].items@.contains(x) ==> item_wf(self.gr(), x)
+        &&& forall|i: int| 0 <= i < self.queue@.len() ==> (#[trigger] self.queue@[i]).0 < self.states@.len()
+        &&& forall|t: Transition| #[trigger] self.transitions@.contains(t) ==> t.from.0 < self.states@.len() && t.to.0 < self.states@.len()
+    }
+}
+
+/// effect of enqueue_transition_target(s, x): some target set T = goto(s, x) is merged/created as state r and (s, x, r) recorded
+spec fn ett_witness(b0: UnnormalizedMachineBuilder, b1: UnnormalizedMachineBuilder, s: StateIndex, x: Symbol, t: Set<StateItem>, r: StateIndex) -> bool {
+    &&& is_goto_of(b0.gr(), b0.states@[s.0 as int].items@, x, t)
+    &&& enq_post(b0, b1, t, r)
+    &&& b1.transitions@ == b0.transitions@.insert(Transition { from: s, to: r, symbol: x })
+}
+spec fn ett_post(b0: UnnormalizedMachineBuilder, b1: UnnormalizedMachineBuilder, s: StateIndex, x: Symbol) -> bool {
+    exists|t: Set<StateItem>, r: StateIndex| #[trigger] ett_witness(b0, b1, s, x, t, r)
+}
+
+/// effect of enqueue_state_if_needed(t) on states and queue
+spec fn enq_post(b0: UnnormalizedMachineBuilder, b1: UnnormalizedMachineBuilder, t: Set<StateItem>, r: StateIndex) -> bool {
+    let n = b0.states@.len() as int;
+    if exists|j: int| 0 <= j < n && same_core(t, #[trigger] b0.states@[j].items@) {
+        // merged into the first state with the same core
+        &&& 0 <= r.0 < n && same_core(t, b0.states@[r.0 as int].items@)
+        &&& forall|j: int| 0 <= j < r.0 ==> !same_core(t, #[trigger] b0.states@[j].items@)
+        &&& b1.states@.len() == n
+        &&& forall|j: int| 0 <= j < n && j != r.0 ==> #[trigger] b1.states@[j] == b0.states@[j]
+        &&& b1.states@[r.0 as int].items@ == b0.states@[r.0 as int].items@.union(t)
+        &&& b1.queue@ == (if b1.states@[r.0 as int].items@ =~= b0.states@[r.0 as int].items@ { b0.queue@ } else { b0.queue@.push(r) })
+    } else {
+        &&& r.0 == n && b1.states@.len() == n + 1
+        &&& forall|j: int| 0 <= j < n ==> #[trigger] b1.states@[j] == b0.states@[j]
+        &&& b1.states@[n].items@ == t
+        &&& b1.queue@ == b0.queue@.push(r)
+    }
+}
+
+/// K is the kernel of goto(i_set, x); t is the LR(1) closure of K
+spec fn is_goto_of(gr: Gram, i_set: Set<StateItem>, x: Symbol, t: Set<StateItem>) -> bool {
+    exists|k_set: Set<StateItem>| #![auto] (forall|k: StateItem| #[trigger] k_set.contains(k) <==> goto_kernel_has(gr, i_set, x, k)) && is_closure_of(gr, k_set, t)
+}
+
 /// t is exactly the LR(1) closure of s, and all its items are well-formed
 spec fn is_closure_of(gr: Gram, s: Set<StateItem>, t: Set<StateItem>) -> bool {
     &&& forall|x: StateItem| #[trigger] t.contains(x) <==> in_closure(gr, s, x)
@@ -231,6 +279,11 @@ proof fn lemma_seq_loop_step(fa: FA, syms: Seq<Symbol>, terms: Set<DollarlessTer
 
 //@[ T13: outlined expressions (current /repo tokens; bodies not verified, contracts assumed)
 #[verifier::external_body]
+fn __vx_file_rules<'a>(file: &'a File) -> (r: Vec<Rule<'a>>)
+    ensures r@ == file_rules(file)
+{ /*@orig T13_file_rules*/ }
+
+#[verifier::external_body]
 fn __vx_queue_init(items: &[StateItem]) -> (r: VecDeque<StateItem>)
     ensures r@ == items@
 { /*@orig T13_queue_init*/ }
@@ -243,7 +296,13 @@ fn __vx_extend_cloned(terminals: &mut Oset<DollarlessTerminalName>, nonterminal_
 //@]
 
 impl UnnormalizedMachineBuilder<'_> {
-    fn new(file: &File) -> UnnormalizedMachineBuilder {
+    fn new(file: &File) -> /*@[*/(r: /*@]*/UnnormalizedMachineBuilder/*@[*/)/*@]*/
+        //@[ C17 C07 UnnormalizedMachineBuilder::new: one state (the start state, index 0), queued; no transitions
+        ensures r.bwf(), r.context.rules@ == file_rules(file), r.context.start_nonterminal_name == file.start,
+            r.states@.len() == 1, is_closure_of(r.gr(), Set::<StateItem>::empty().insert(start_item()), r.states@[0].items@),
+            r.transitions@ == Set::<Transition>::empty(), r.queue@ == seq![StateIndex(0)],
+        //@]
+    {
         let context = ImmutContext::new(file);
         let start_state = context.get_start_state();
         UnnormalizedMachineBuilder {
@@ -256,8 +315,15 @@ impl UnnormalizedMachineBuilder<'_> {
 }
 
 impl ImmutContext<'_> {
-    fn new(file: &File) -> ImmutContext {
-        let rules: Vec<Rule> = file.get_rules().collect();
+    fn new(file: &File) -> /*@[*/(r: /*@]*/ImmutContext/*@[*/)/*@]*/
+        //@[ C17 C07 ImmutContext::new: the rules of the file and their FIRST/nullable map
+        ensures r.wf(), r.rules@ == file_rules(file), r.start_nonterminal_name == file.start,
+        //@]
+    {
+        //@[ proof
+        proof { assert forall|a: String, b: String| a@ == b@ implies a == b by { axiom_string_ext(a, b); } }
+        //@]
+        let rules: Vec<Rule> = /*@{ T13_file_rules*//*@- file.get_rules().collect() *//*@|*/__vx_file_rules(file)/*@}*/;
         let first_sets = get_first_sets(&rules);
         ImmutContext {
             start_nonterminal_name: file.start.clone(),
@@ -284,7 +350,13 @@ impl UnnormalizedMachineBuilder<'_> {
         }
     }
 
-    fn enqueue_state_if_needed(&mut self, state: State) -> StateIndex {
+    fn enqueue_state_if_needed(&mut self, state: State) -> /*@[*/(r: /*@]*/StateIndex/*@[*/)/*@]*/
+        //@[ C17 C04 C07 enqueue_state_if_needed: merge into THE state with the same core if there is one, else create a new state
+        requires old(self).bwf(), state.items.wf(), forall|x: StateItem| #[trigger] state.items@.contains(x) ==> item_wf(old(self).gr(), x),
+        ensures final(self).bwf(), final(self).context == old(self).context, final(self).transitions == old(self).transitions,
+            enq_post(*old(self), *final(self), state.items@, r),
+        //@]
+    {
         if let Some(index) = self.get_index_of_mergable(&state) {
             self.merge(index, state.items)
         } else {
@@ -292,10 +364,18 @@ impl UnnormalizedMachineBuilder<'_> {
         }
     }
 
-    //@[ T: iterator adapters outside the supported subset (body not verified; contract assumed)
+    //@[ T: enumerate / find_map are outside the supported subset (body not verified; contract assumed)
     #[verifier::external_body]
     //@]
-    fn get_index_of_mergable(&self, state: &State) -> Option<StateIndex> {
+    fn get_index_of_mergable(&self, state: &State) -> /*@[*/(r: /*@]*/Option<StateIndex>/*@[*/)/*@]*/
+        //@[ assumed contract: the first existing state with the same core (decided by are_cores_equal)
+        ensures match r {
+            Some(i) => i.0 < self.states@.len() && same_core(state.items@, self.states@[i.0 as int].items@)
+                && forall|j: int| 0 <= j < i.0 ==> !same_core(state.items@, #[trigger] self.states@[j].items@),
+            None => forall|j: int| 0 <= j < self.states@.len() ==> !same_core(state.items@, #[trigger] self.states@[j].items@),
+        },
+        //@]
+    {
         self.states
             .iter()
             .enumerate()
@@ -308,7 +388,17 @@ impl UnnormalizedMachineBuilder<'_> {
             })
     }
 
-    fn merge(&mut self, index: StateIndex, items: Oset<StateItem>) -> StateIndex {
+    fn merge(&mut self, index: StateIndex, items: Oset<StateItem>) -> /*@[*/(r: /*@]*/StateIndex/*@[*/)/*@]*/
+        //@[ C17 C04 C07 merge: lookahead propagation - a state that gained items is enqueued again
+        requires old(self).bwf(), index.0 < old(self).states@.len(), items.wf(),
+            forall|x: StateItem| #[trigger] items@.contains(x) ==> item_wf(old(self).gr(), x),
+        ensures final(self).bwf(), r == index, final(self).context == old(self).context, final(self).transitions == old(self).transitions,
+            final(self).states@.len() == old(self).states@.len(),
+            forall|j: int| 0 <= j < old(self).states@.len() && j != index.0 ==> #[trigger] final(self).states@[j] == old(self).states@[j],
+            final(self).states@[index.0 as int].items@ == old(self).states@[index.0 as int].items@.union(items@),
+            final(self).queue@ == (if final(self).states@[index.0 as int].items@ =~= old(self).states@[index.0 as int].items@ { old(self).queue@ } else { old(self).queue@.push(index) }),
+        //@]
+    {
         let were_items_added = self.add_items_if_needed(index, items);
 
         if were_items_added {
@@ -319,21 +409,78 @@ impl UnnormalizedMachineBuilder<'_> {
     }
 
     /// Returns true if items were added.
-    fn add_items_if_needed(&mut self, index: StateIndex, items: Oset<StateItem>) -> bool {
+    fn add_items_if_needed(&mut self, index: StateIndex, items: Oset<StateItem>) -> /*@[*/(r: /*@]*/bool/*@[*/)/*@]*/
+        //@[ C17 C04 C07 add_items_if_needed: union into the state; reports exactly whether the state grew (drives the re-enqueue)
+        requires old(self).bwf(), index.0 < old(self).states@.len(), items.wf(),
+            forall|x: StateItem| #[trigger] items@.contains(x) ==> item_wf(old(self).gr(), x),
+        ensures final(self).bwf(), final(self).context == old(self).context, final(self).transitions == old(self).transitions,
+            final(self).queue == old(self).queue, final(self).states@.len() == old(self).states@.len(),
+            forall|j: int| 0 <= j < old(self).states@.len() && j != index.0 ==> #[trigger] final(self).states@[j] == old(self).states@[j],
+            final(self).states@[index.0 as int].items@ == old(self).states@[index.0 as int].items@.union(items@),
+            r == !(final(self).states@[index.0 as int].items@ =~= old(self).states@[index.0 as int].items@),
+        //@]
+    {
+        //@[ proof
+        let ghost gr = self.gr();
+        let ghost i0 = old(self).states@[index.0 as int].items@;
+        let ghost all = items.seq();
+        //@]
         let state = self.state_mut(index);
         let mut was_item_added = false;
 
-        for item in items {
+        for item in /*@[*/__vx_it: /*@]*/items
+            //@[ C17 loop invariant: the items seen so far were united into the state
+            invariant
+                __vx_it.seq() == all, state.items.wf(),
+                forall|x: StateItem| #[trigger] state.items@.contains(x) <==> i0.contains(x) || exists|k: int| 0 <= k < __vx_it.index@ && all[k] == x,
+                was_item_added == !(state.items@ =~= i0),
+            //@]
+        {
+            //@[ proof
+            let ghost s_before = state.items@;
+            //@]
             if !state.items.contains(&item) {
                 state.items.insert(item);
                 was_item_added = true;
+                //@[ proof
+                proof { assert(state.items@.contains(item) && !i0.contains(item)); }
+                //@]
+            }
+            //@[ proof
+            proof {
+                assert forall|x: StateItem| #[trigger] state.items@.contains(x) <==> i0.contains(x) || exists|k: int| 0 <= k < __vx_it.index@ + 1 && all[k] == x by {
+                    if state.items@.contains(x) && !s_before.contains(x) { assert(all[__vx_it.index@] == x); }
+                    if exists|k: int| 0 <= k < __vx_it.index@ + 1 && all[k] == x {
+                        let k = choose|k: int| 0 <= k < __vx_it.index@ + 1 && all[k] == x;
+                        if k < __vx_it.index@ { assert(s_before.contains(x)); }
+                    }
+                }
+                if !(s_before =~= i0) { let w = choose|w: StateItem| s_before.contains(w) != i0.contains(w); assert(state.items@.contains(w)); }
+            }
+            //@]
+        }
+        //@[ proof
+        proof {
+            assert(state.items@ =~= i0.union(items@)) by {
+                assert forall|x: StateItem| state.items@.contains(x) <==> i0.union(items@).contains(x) by {
+                    if items@.contains(x) { let k = choose|k: int| 0 <= k < all.len() && all[k] == x; }
+                    if exists|k: int| 0 <= k < all.len() && all[k] == x { let k = choose|k: int| 0 <= k < all.len() && all[k] == x; assert(items@.contains(all[k])); }
+                }
             }
         }
+        //@]
 
         was_item_added
     }
 
-    fn enqueue_new_state(&mut self, state: State) -> StateIndex {
+    fn enqueue_new_state(&mut self, state: State) -> /*@[*/(r: /*@]*/StateIndex/*@[*/)/*@]*/
+        //@[ C17 C07 enqueue_new_state: appended with the next index and queued
+        requires old(self).bwf(), state.items.wf(), forall|x: StateItem| #[trigger] state.items@.contains(x) ==> item_wf(old(self).gr(), x),
+        ensures final(self).bwf(), r.0 == old(self).states@.len(), final(self).context == old(self).context,
+            final(self).transitions == old(self).transitions,
+            final(self).states@ == old(self).states@.push(state), final(self).queue@ == old(self).queue@.push(r),
+        //@]
+    {
         let index = StateIndex(self.states.len());
         self.states.push(state);
         self.queue.push_back(index);
@@ -347,10 +494,16 @@ impl UnnormalizedMachineBuilder<'_> {
         }
     }
 
-    //@[ T: iterator adapters outside the supported subset (body not verified; contract assumed)
+    //@[ T: Iterator::filter_map is outside the supported subset (body not verified; contract assumed)
     #[verifier::external_body]
     //@]
-    fn get_symbols_right_of_dot(&self, state_index: StateIndex) -> Oset<Symbol> {
+    fn get_symbols_right_of_dot(&self, state_index: StateIndex) -> /*@[*/(r: /*@]*/Oset<Symbol>/*@[*/)/*@]*/
+        //@[ assumed contract: the symbols that stand right of a dot in the state
+        requires state_index.0 < self.states@.len(),
+        ensures r.wf(), forall|x: Symbol| #[trigger] r@.contains(x) <==>
+            exists|i: StateItem| self.states@[state_index.0 as int].items@.contains(i) && #[trigger] after_dot(self.gr(), i) == Some(x),
+        //@]
+    {
         let state = self.state(state_index);
         state
             .items
@@ -359,34 +512,90 @@ impl UnnormalizedMachineBuilder<'_> {
             .collect()
     }
 
-    fn get_symbol_right_of_dot(&self, item: &StateItem) -> Option<Symbol> {
+    fn get_symbol_right_of_dot(&self, item: &StateItem) -> /*@[*/(r: /*@]*/Option<Symbol>/*@[*/)/*@]*/
+        //@[ C17 C07 UnnormalizedMachineBuilder::get_symbol_right_of_dot
+        requires (item.rule_index matches RuleIndex::Original(ri) ==> ri < self.context.rules@.len()),
+        ensures r == after_dot(self.gr(), *item),
+        //@]
+    {
         self.context.get_symbol_right_of_dot(item)
     }
 
-    fn enqueue_transition_target(&mut self, state_index: StateIndex, symbol: &Symbol) {
+    fn enqueue_transition_target(&mut self, state_index: StateIndex, symbol: &Symbol)
+        //@[ C17 C04 C07 enqueue_transition_target: goto(state, symbol) is merged or created, and the transition recorded
+        requires old(self).bwf(), state_index.0 < old(self).states@.len(),
+        ensures final(self).bwf(), final(self).context == old(self).context, ett_post(*old(self), *final(self), state_index, *symbol),
+        //@]
+    {
+        //@[ proof
+        let ghost b0 = *self;
+        //@]
         let target = self.get_transition_target(state_index, symbol);
+        //@[ proof
+        let ghost tset = target.items@;
+        //@]
         let target_index = self.enqueue_state_if_needed(target);
+        //@[ proof
+        let ghost b_mid = *self;
+        //@]
         let transition = Transition {
             from: state_index,
             to: target_index,
             symbol: symbol.clone(),
         };
         self.transitions.insert(transition);
+        //@[ proof
+        proof {
+            assert(enq_post(b0, b_mid, tset, target_index));
+            assert(self.states@ == b_mid.states@ && self.queue@ == b_mid.queue@);
+            assert(enq_post(b0, *self, tset, target_index));
+            assert(is_goto_of(b0.gr(), b0.states@[state_index.0 as int].items@, *symbol, tset));
+            assert(self.transitions@ == b0.transitions@.insert(Transition { from: state_index, to: target_index, symbol: *symbol }));
+            assert(ett_witness(b0, *self, state_index, *symbol, tset, target_index));
+            assert forall|t: Transition| #[trigger] self.transitions@.contains(t) implies t.from.0 < self.states@.len() && t.to.0 < self.states@.len() by {
+                if b0.transitions@.contains(t) { assert(t.from.0 < b0.states@.len()); }
+            }
+        }
+        //@]
     }
 
-    fn get_transition_target(&self, state_index: StateIndex, symbol: &Symbol) -> State {
+    fn get_transition_target(&self, state_index: StateIndex, symbol: &Symbol) -> /*@[*/(r: /*@]*/State/*@[*/)/*@]*/
+        //@[ C17 C07 get_transition_target: goto(state, symbol) = closure of the advanced kernel
+        requires self.bwf(), state_index.0 < self.states@.len(),
+        ensures r.items.wf(), is_goto_of(self.gr(), self.states@[state_index.0 as int].items@, *symbol, r.items@),
+        //@]
+    {
         let items = self.get_transition_items(state_index, symbol);
+        //@[ proof
+        proof {
+            assert forall|i: int| 0 <= i < items@.len() implies item_wf(self.gr(), #[trigger] items@[i]) by {
+                assert(items@.contains(items@[i]));
+                let it = choose|it: StateItem| self.states@[state_index.0 as int].items@.contains(it) && #[trigger] after_dot(self.gr(), it) == Some(*symbol) && items@[i] == advanced(it);
+                lemma_item_rhs_len(&self.context, it);
+            }
+        }
+        //@]
         self.get_closure(&items)
     }
 
-    fn get_closure(&self, items: &[StateItem]) -> State {
+    fn get_closure(&self, items: &[StateItem]) -> /*@[*/(r: /*@]*/State/*@[*/)/*@]*/
+        //@[ C17 UnnormalizedMachineBuilder::get_closure
+        requires self.context.wf(), forall|i: int| 0 <= i < items@.len() ==> item_wf(self.gr(), #[trigger] items@[i]),
+        ensures r.items.wf(), is_closure_of(self.gr(), items@.to_set(), r.items@),
+        //@]
+    {
         self.context.get_closure(items)
     }
 
-    //@[ T: iterator adapters outside the supported subset (body not verified; contract assumed)
+    //@[ T: Iterator::filter_map is outside the supported subset (body not verified; contract assumed)
     #[verifier::external_body]
     //@]
-    fn get_transition_items(&self, state_index: StateIndex, symbol: &Symbol) -> Vec<StateItem> {
+    fn get_transition_items(&self, state_index: StateIndex, symbol: &Symbol) -> /*@[*/(r: /*@]*/Vec<StateItem>/*@[*/)/*@]*/
+        //@[ assumed contract: the kernel of goto(state, symbol) - every item with `symbol` after the dot, advanced (via self.advance)
+        requires state_index.0 < self.states@.len(),
+        ensures forall|k: StateItem| #[trigger] r@.contains(k) <==> goto_kernel_has(self.gr(), self.states@[state_index.0 as int].items@, *symbol, k),
+        //@]
+    {
         let state = self.state(state_index);
         state
             .items
@@ -397,7 +606,15 @@ impl UnnormalizedMachineBuilder<'_> {
 
     /// If `item` is `A -> alpha . B beta` and `symbol` is `B`,
     /// then this returns `Some(A -> alpha B . beta)`.
-    fn advance(&self, item: &StateItem, symbol: &Symbol) -> Option<StateItem> {
+    fn advance(&self, item: &StateItem, symbol: &Symbol) -> /*@[*/(r: /*@]*/Option<StateItem>/*@[*/)/*@]*/
+        //@[ C17 C07 advance: [A -> alpha . X beta, a] and X give [A -> alpha X . beta, a]; same rule, same lookahead
+        requires self.context.wf(), item_wf(self.gr(), *item),
+        ensures r == (if after_dot(self.gr(), *item) == Some(*symbol) { Some(advanced(*item)) } else { None }),
+        //@]
+    {
+        //@[ proof
+        proof { lemma_item_rhs_len(&self.context, *item); }
+        //@]
         let right_of_dot = self.get_symbol_right_of_dot(item);
         if right_of_dot.as_ref() == Some(symbol) {
             Some(StateItem {
@@ -412,17 +629,41 @@ impl UnnormalizedMachineBuilder<'_> {
 }
 
 impl UnnormalizedMachineBuilder<'_> {
-    fn state(&self, index: StateIndex) -> &State {
+    fn state(&self, index: StateIndex) -> /*@[*/(r: /*@]*/&State/*@[*/)/*@]*/
+        //@[ C07 UnnormalizedMachineBuilder::state: in range only (no panic)
+        requires index.0 < self.states@.len(),
+        ensures *r == self.states@[index.0 as int],
+        //@]
+    {
         &self.states[index.0]
     }
 
-    fn state_mut(&mut self, index: StateIndex) -> &mut State {
+    fn state_mut(&mut self, index: StateIndex) -> /*@[*/(r: /*@]*/&mut State/*@[*/)/*@]*/
+        //@[ C07 UnnormalizedMachineBuilder::state_mut: in range only; exactly that state is replaced by what is written through the reference
+        requires index.0 < old(self).states@.len(),
+        ensures *r == old(self).states@[index.0 as int],
+            final(self).states@ == old(self).states@.update(index.0 as int, *final(r)),
+            final(self).context == old(self).context, final(self).transitions == old(self).transitions, final(self).queue == old(self).queue,
+        //@]
+    {
         &mut self.states[index.0]
     }
 }
 
 impl ImmutContext<'_> {
-    fn get_start_state(&self) -> State {
+    fn get_start_state(&self) -> /*@[*/(r: /*@]*/State/*@[*/)/*@]*/
+        //@[ C17 get_start_state: closure of [S' -> . start, $]
+        requires self.wf(),
+        ensures r.items.wf(), is_closure_of(self.gr(), Set::<StateItem>::empty().insert(start_item()), r.items@),
+        //@]
+    {
+        //@[ proof
+        proof {
+            assert forall|arr: [StateItem; 1]| #[trigger] arr@.len() == 1 && arr@[0] == start_item() implies arr@.to_set() =~= Set::<StateItem>::empty().insert(start_item()) by {
+                assert(arr@.to_set().contains(arr@[0]));
+            }
+        }
+        //@]
         self.get_closure(&[StateItem {
             rule_index: RuleIndex::Augmented,
             lookahead: Lookahead::Eof,
